@@ -18,7 +18,6 @@ import (
 	"net/http"
 	"net/http/httptest"
 	"net/url"
-	"os"
 	"runtime/debug"
 	"sort"
 	"strings"
@@ -1109,7 +1108,8 @@ func runConc(c Case) *vkit.Result {
 	for _, p := range e.rt.takePanics() {
 		res.Fail("C20:panic@"+p[strings.LastIndex(p, "@")+1:], "handler panicked during the concurrent phase: %s", p)
 	}
-	total, nondet := 0, 0
+	total := 0
+	var alsoAlone []string
 	kinds := map[string]bool{}
 	pairs := map[string]bool{}
 	for g, rs := range results {
@@ -1134,6 +1134,11 @@ func runConc(c Case) *vkit.Result {
 				}
 			}
 			if r.msg == "" {
+				if info.det {
+					res.Label("answer:as-expected-of-a-run-alone")
+				} else {
+					res.Label("answer:contended-wellformed")
+				}
 				continue
 			}
 			if strings.HasPrefix(r.msg, "PANIC") {
@@ -1151,18 +1156,9 @@ func runConc(c Case) *vkit.Result {
 				res.Fail("C20:concurrent-answer-differs:"+r.op.K, "goroutine %d op %d (%+v) was answered differently under concurrency than when run alone afterwards: %s", r.g, r.i, r.op, r.msg)
 			} else {
 				// fails alone as well: not a concurrency effect (another property's business or a harness expectation)
-				res.Label("seq-fails-too:" + r.op.K)
-				if os.Getenv("C20_DEBUG") != "" {
-					res.Label("DEBUG " + r.op.K + ": " + r.msg + " // alone: " + seq)
-				}
+				res.Label("answer:fails-alone-too:" + r.op.K)
+				alsoAlone = append(alsoAlone, r.op.K+": "+r.msg+" // alone: "+seq)
 				res.Grey = true
-			}
-		}
-	}
-	for _, rs := range results {
-		for _, r := range rs {
-			if !opKinds[r.op.K].det {
-				nondet++
 			}
 		}
 	}
@@ -1177,7 +1173,7 @@ func runConc(c Case) *vkit.Result {
 	sort.Strings(ps)
 	res.NonTrivial = len(c.Progs) >= 2 && total >= 4
 	res.Key = fmt.Sprintf("conc|%s|%s|%v|%v|%v|%d|%s", c.Router, c.SignAlg, c.JWTAT, c.Sync, c.Cold, len(c.Progs), strings.Join(ps, ","))
-	res.Info = map[string]any{"ops": total, "kinds": ks, "guards": map[string]bool{"checkredirect": e.guardCR, "getaudience": e.guardAud}}
+	res.Info = map[string]any{"ops": total, "kinds": ks, "guards": map[string]bool{"checkredirect": e.guardCR, "getaudience": e.guardAud}, "failed_alone_too": alsoAlone}
 	return res
 }
 
